@@ -336,6 +336,20 @@ fn validate_dedicated_member_attrs<T, U: Fn(&T) -> Option<&TypePath>>(attrs: &Ve
 }
 
 fn validate_parent_attrs(named_root_struct: bool, parent_attrs: &[ParentAttr], data_type_attrs_by_kind: &[(&TraitAttrCore, Kind)], errors: &mut Errors) {
+    // the nested fields of the #[parent(...)] list that is in force for a conversion are written with their names when the counterpart is struct-shaped:
+    // a positional one needs an instruction, for this kind of conversion, that names the counterpart's field
+    for (attr, kind) in data_type_attrs_by_kind.iter().filter(|(x, kind)| !kind.is_from() && x.quick_return.is_none()) {
+        let in_force = parent_attrs.iter().find(|p| p.child_fields.is_some() && p.container_ty.as_ref() == Some(&attr.ty))
+            .or_else(|| parent_attrs.iter().find(|p| p.child_fields.is_some() && p.container_ty.is_none()));
+        let struct_shaped = attr.type_hint == TypeHint::Struct || (attr.type_hint == TypeHint::Unspecified && named_root_struct);
+        if let (true, Some(fields)) = (struct_shaped, in_force.and_then(|p| p.child_fields.as_ref())) {
+            for f in fields.iter().filter(|f| !f.named_fields() && f.get_for_kind(kind).map_or(true, |x| x.that_member.is_none())) {
+                let s = f.this_member.to_token_stream().to_string();
+                errors.insert(format!("Member {0} should have an instruction that specifies corresponding field name of type {2}, e.g. #[parent({1}[map(field_name)] {0}, ...)]", s, if s == "0" { "" } else { "..., " }, attr.ty.path_str), f.this_member.span());
+            }
+        }
+    }
+
     for p in parent_attrs {
         for (attr, _) in data_type_attrs_by_kind.iter().filter(|(x, kind)| !kind.is_from() && (p.container_ty.is_none() || &x.ty == p.container_ty.as_ref().unwrap())) {
             if let Some(fields) = p.child_fields.as_ref() { fields.iter().for_each(|f| {
